@@ -85,8 +85,9 @@ theorem C14_cadence (s : Sys F) (now j : Nat) (l : FLink F) (hl : s.links[j]? = 
   obtain ⟨l', hl', hk⟩ := h2 j l hl
   obtain ⟨t, ht, hlt⟩ := hk.fresh hc hto
   refine ⟨l', t, hl', hk.connId, ht, hlt, ?_⟩
-  rcases hk.change with h | ⟨h, hm⟩
+  rcases hk.change with h | h | ⟨h, hm⟩
   · exact Or.inl h
+  · rw [ht] at h; cases h
   · rw [ht] at h; cases h; exact Or.inr ⟨rfl, hm⟩
 
 /-- **Nothing else is sent as a keepalive**: every keepalive-typed (0x9000) datagram in a tick's wire
@@ -716,15 +717,17 @@ theorem C14_rtt_changes_only_by_sys (s : Sys F) (e : Ev) (j : Nat) (l l' : FLink
   | hk now =>
     have hn : ∀ op, op = Op.kaEcho ∨ op = .srtAck → ¬ evOps s (.hk now) j op := by
       intro op hop hA
-      have hA' : hkOps s.cfg.classic op := hA
-      unfold hkOps at hA'
-      rcases hop with rfl | rfl <;> rcases hA' with h | h | h | h | h | ⟨h, -⟩ <;> cases h
+      rcases (hA : hkOpsAt s now j op) with hA' | ⟨hm, -⟩
+      · unfold hkOps at hA'
+        rcases hop with rfl | rfl <;> rcases hA' with h | h | h | h | h | ⟨h, -⟩ <;> cases h
+      · rcases hop with rfl | rfl <;> cases hm
     rcases rtt_run hrun (hn _ (.inl rfl)) (hn _ (.inr rfl)) with h | ⟨-, h⟩
     · exact .inl h
     · exact .inr (.inl ⟨⟨now, rfl⟩, h⟩)
   | setCfg cfg => rw [hrun.eq_of_none (fun _ h => h)]; exact .inl (.refl _)
   | crit d => rw [hrun.eq_of_none (fun _ h => h)]; exact .inl (.refl _)
   | failNext cid => rw [hrun.eq_of_none (fun _ h => h)]; exact .inl (.refl _)
+  | failBind cid => rw [hrun.eq_of_none (fun _ h => h)]; exact .inl (.refl _)
 
 /-- **Along any run** (`C14_sample_only_from_echo_sys`): for every run `pre ++ [e]` of the shell from ANY
 state, the last event changes the FILTER state of link `j`'s RTT tracker only
